@@ -142,7 +142,7 @@ func init() {
 		r := e.ufCall(st, "joinhostport", h, p)
 		if !(h.K && p.K) {
 			e.sol.Assert(Or(Eq(r[0], Concat(h, KStr(":"), p)), Eq(r[0], Concat(KStr("["), h, KStr("]:"), p))))
-			e.sol.Assert(Implies(Not(StrContains(h, KStr(":"))), Eq(r[0], Concat(h, KStr(":"), p))))
+			e.sol.Assert(Implies(And(Not(StrContains(h, KStr(":"))), Not(StrContains(h, KStr("%")))), Eq(r[0], Concat(h, KStr(":"), p))))
 		}
 		c.ret(st, r[0])
 		return true
@@ -546,9 +546,27 @@ func init() {
 		} else {
 			e.sol.Assert(And(Le(KInt64(0), kind), Le(kind, KInt64(3)), Lt(KInt64(0), den)))
 			e.sol.Assert(Implies(Eq(s, KStr("")), Not(ok)))
+			e.sol.Assert(Implies(Not(ok), And(Eq(kind, KInt64(0)), Eq(num, KInt64(0)), Eq(den, KInt64(1)))))
 			// documented special spellings
 			e.sol.Assert(Implies(Or(Eq(s, KStr("Inf")), Eq(s, KStr("+Inf")), Eq(s, KStr("inf")), Eq(s, KStr("Infinity"))), And(ok, Eq(kind, KInt64(1)))))
 			e.sol.Assert(Implies(Or(Eq(s, KStr("NaN")), Eq(s, KStr("nan"))), And(ok, Eq(kind, KInt64(3)))))
+			if cv, isCV := charVec(s); isCV {
+				// a character that occurs in no float literal (decimal, hex, inf, infinity, nan) is an error
+				var bad []*Term
+				for _, ch := range cv {
+					if ch.sym == nil {
+						continue
+					}
+					var okc []*Term
+					for _, a := range "0123456789abcdefABCDEF+-._xXpPiInNtTyY" {
+						okc = append(okc, Eq(ch.sym, KInt64(int64(a))))
+					}
+					bad = append(bad, Not(Or(okc...)))
+				}
+				if len(bad) > 0 {
+					e.sol.Assert(Implies(Or(bad...), Not(ok)))
+				}
+			}
 			v := e.freshVar("pf", SReal)
 			e.sol.Assert(Eq(v, Ite(Eq(kind, KInt64(0)), RDiv(ToReal(num), ToReal(den)), rZero)))
 			mx := KReal(maxF64)
